@@ -27,6 +27,14 @@ CLAIMS = {
                  'processes is not decided. Seven genuine order dependences are recorded as known findings, three were repaired.',
         'technique': 'ValueSet typing fixpoint + order-taint at API boundary + CFG must/pair rules (ast)',
     },
+    'C08': {
+        'level': 'Inventory of every process-lifetime mutable store of the package (module/class containers mutated by function code, closures '
+                 'of import-time factories, global rebinding, functools caches, cross-module attribute writes, mutated default arguments) '
+                 'against a triaged table, plus the invalidation wired to each: time caches purged at Script construction and served only '
+                 'before expiry, tree-derived caches weak-keyed on the parso cache node and bypassed for path-less buffers, all inference '
+                 'memoisation stored on the per-Script InferenceState, buffer parsed with cache=False. Equality with a fresh process is not decided.',
+        'technique': 'store inventory (who-may-write) + CFG must/gate rules + decorator-storage classification (ast)',
+    },
     'C12': {
         'level': 'Whole-package inventory of code-execution sinks and host-state writers by resolved callee (every call site classified), '
                  'who-may-call on the one real importer chain, gate/flow on the safe-path filter of _load_builtin_module, undotted '
